@@ -115,6 +115,45 @@ func c10Ops(rng *rand.Rand, k int) []c10Op {
 			})
 		}
 	}
+	// large payloads, a different one per operation: whatever scratch space the library shares between
+	// calls shows as another call's bytes
+	for j := 0; j < 8; j++ {
+		n := []int{700, 1024, 1500, 4096, 9000, 40000, 70000, 200000}[j]
+		raw := bytes.Repeat([]byte{byte('A' + j)}, n)
+		bv := struct {
+			B  []byte
+			L  [][]byte
+			S  string
+			M  map[string][]byte
+			RM stdjson.RawMessage
+		}{raw, [][]byte{raw[:n/2], raw[:n/3]}, strings.Repeat(string(rune('a'+j)), n), map[string][]byte{"k": raw[:n/4]}, stdjson.RawMessage(`"` + strings.Repeat(string(rune('m'+j)), n/2) + `"`)}
+		sum := func(b []byte, err error, pan string) string {
+			return fmt.Sprintf("len=%d sum=%d err=%s panic=%s", len(b), c11Sum(b), c11Err(err), pan)
+		}
+		add(fmt.Sprint("Marshal(big)#", j), func() string { return sum(safeMarshal(func() ([]byte, error) { return json.Marshal(bv) })) })
+		add(fmt.Sprint("MarshalIndent(big)#", j), func() string {
+			return sum(safeMarshal(func() ([]byte, error) { return json.MarshalIndent(&bv, "", "  ") }))
+		})
+		doc, _ := stdjson.Marshal(bv)
+		add(fmt.Sprint("Unmarshal(big)#", j), func() string {
+			v := reflect.New(reflect.TypeOf(bv))
+			err, pan := safeDo(func() error { return json.Unmarshal(doc, v.Interface()) })
+			b, _ := stdjson.Marshal(v.Interface())
+			return fmt.Sprintf("len=%d sum=%d err=%s panic=%s", len(b), c11Sum(b), c11Err(err), pan)
+		})
+		add(fmt.Sprint("Decoder(big)#", j), func() string {
+			v := reflect.New(reflect.TypeOf(bv))
+			err, pan := safeDo(func() error { return json.NewDecoder(&chunkReader{data: doc, size: 4096}).Decode(v.Interface()) })
+			b, _ := stdjson.Marshal(v.Interface())
+			return fmt.Sprintf("len=%d sum=%d err=%s panic=%s", len(b), c11Sum(b), c11Err(err), pan)
+		})
+		add(fmt.Sprint("Compact/Indent(big)#", j), func() string {
+			var x, y bytes.Buffer
+			e1 := json.Compact(&x, doc)
+			e2 := json.Indent(&y, doc, "", " ")
+			return fmt.Sprintf("%d %d %s %d %d %s", x.Len(), c11Sum(x.Bytes()), c11Err(e1), y.Len(), c11Sum(y.Bytes()), c11Err(e2))
+		})
+	}
 	// decoding into the same types
 	docs := []struct {
 		doc string
